@@ -80,6 +80,7 @@ def run(tier, out):
                                   "exception raised compared exactly with the TLA+ transcription) or one float-input system "
                                   "(qualitative clause only); distinct by seed",
                           "what_building_raised": raises,
+                          "edit_histories_cut_short_by_the_32_bit_range": numcheck.SKIPPED["edits"],
                           "float_models": n_float,
                           "float_models_raised": sum(1 for e in events if e["ev"] == "FloatModel" and e["raised"] != "none")})
         out.assumptions += ["exact numeric conformance on lattice inputs only; on arbitrary floats only 'a deletion-free "
